@@ -4,7 +4,8 @@ from __future__ import annotations
 import ast
 
 from .. import callgraph, link, rules_num, unitrules
-from ..core import PKG, AnalysisError, kwarg, names_in, norm, walk_no_nested
+from ..core import (PKG, AnalysisError, arg_or_kw, kwarg, names_in, norm,
+                    walk_no_nested)
 
 EXPLANATION = (
     "Static analysis of the blind-finding chain (source_finder, fitting, "
@@ -86,6 +87,10 @@ MUTANTS = [
     ("integrated flux with one conversion factor", "AegeanTools/source_finder.py",
      "source.int_flux = source.peak_flux * sx * sy * CC2FHWM ** 2 * np.pi",
      "source.int_flux = source.peak_flux * sx * sy * CC2FHWM * np.pi", "C01-R7"),
+    ("summits labelled 4-connected (the repaired defect)",
+     "AegeanTools/source_finder.py",
+     "        l, n = label(a, structure=np.ones((3, 3)))\n        f = find_objects(l)",
+     "        l, n = label(a)\n        f = find_objects(l)", "C01-R8"),
 ]
 TWINS = [
     ("radians spelled out", "AegeanTools/wcs_helpers.py",
@@ -137,6 +142,37 @@ def run(ctx):
     # pixels): the same formula rule as C03-R6
     from .c03 import r6 as int_flux_formula
     int_flux_formula(ctx, prog, prog.module("source_finder"), rule="C01-R7")
+    # ---------------------------------------------------------------- R8
+    ctx.rule("C01-R8", "one peak, one component: every pixel-mask "
+             "segmentation reachable from blind finding (islands AND the "
+             "summits inside an island) labels with a full 3x3 structure -- "
+             "with scipy's default cross, the two top pixels of a single "
+             "Gaussian elongated along the pixel diagonal form two summits "
+             "and the source is reported as two components")
+    from .c02 import full3x3
+    n8 = 0
+    for q in sorted(reach):
+        fi_ = prog.functions[q]
+        mod_ = prog.modules[fi_.module]
+        for c in walk_no_nested(fi_.node):
+            if isinstance(c, ast.Call) and prog.dotted(mod_, c.func) in (
+                    "scipy.ndimage.label", "scipy.ndimage.measurements.label"
+            ) or (isinstance(c, ast.Call) and
+                  isinstance(c.func, ast.Name) and
+                  prog.resolve_name(mod_, c.func.id) in (
+                      "scipy.ndimage.label",
+                      "scipy.ndimage.measurements.label")):
+                n8 += 1
+                st_ = arg_or_kw(c, 1, "structure")
+                ctx.check("C01-R8", fi_, "structure of " + norm(c, 70),
+                          full3x3(prog, mod_, st_),
+                          "structure=%s: diagonal neighbours are separate "
+                          "labels, so one diagonal ridge (a single elongated "
+                          "source) is split into several summits / islands" %
+                          (norm(st_) if st_ is not None else "<default "
+                           "cross>"), node=c)
+    ctx.floor("C01-R8", n8, 2, "scipy.ndimage.label calls reachable from "
+              "blind finding")
     # ---------------------------------------------------------------- R4
     n = rules_num.lmfit_int_uses(ctx, "C01-R4", reach)
     ctx.note("C01-R4: %d int-only uses of coerced lmfit values" % n)
